@@ -105,7 +105,7 @@ class C04(Campaign):
     chunk = 15
     fault_kinds = ["raise@validators", "raise@cond", "raise@unless", "raise@before", "raise@exit", "raise@on",
                    "raise@enter", "raise@after", "raise@initial-activation", "raise@nested-or-queued-event",
-                   "raise x2 in consecutive operations", "raise BaseException (not an Exception) from a callback", "queued-event-not-allowed", "cancel@await (async)"]
+                   "raise x2 in consecutive operations", "raise BaseException (not an Exception) from a callback", "raise StopIteration / RuntimeError / AttributeError subclasses", "queued-event-not-allowed", "cancel@await (async)"]
     rule = ("one scenario = a generated machine with nested sends (rtc on/off, sync/async callbacks, "
             "machine/model/listener providers) and a 3-12 operation history; a fault-free run numbers its K "
             "callback invocations and the scenario is re-executed with an exception injected at position k "
@@ -218,8 +218,11 @@ class C04(Campaign):
                 pos = pos[:40]
                 bump("probe.crash_points_sampled_40_of_many")
             variants = []
+            classes = ["SimFault", "SimLookup", "SimValue", "SimBaseFault", "SimRuntime", "SimAttr"]
+            if not any(m_.get("async") or m_.get("awaitable") for m_ in base["programs"][0]["cbs"].values()):
+                classes = classes + ["SimStop", "SimStop"]
             for p in pos:
-                cls = rnd.choice(["SimFault", "SimLookup", "SimValue", "SimBaseFault", "SimRuntime", "SimAttr"])
+                cls = rnd.choice(classes)
                 variants.append(inject(base, p, cls))
             # double faults: two crash points in different operations
             allp = positions(base, bres)
